@@ -2,7 +2,7 @@
    whole terminal: lifted from grids (WfGrid.v) to screens, vte actions
    (WfVte.v), the parser API and arbitrary histories.  Cell clauses of C13. *)
 Require Import Tac ListN Utf8 Width Attrs Cell Row Grid Screen Vte Perform Parser.
-Require Import RowInv GridInv TextInv ScreenInv.
+Require Import RowInv GridInv TextInv ScreenInv Pend Chunking.
 Require Export CellWf WfGrid WfVte.
 Open Scope N_scope.
 
@@ -333,20 +333,28 @@ Qed.
 
 (* no hypothesis on the input bytes is needed for the screen part *)
 Lemma process_wf p bs q : process p bs = Ok q -> parser_ok p -> screen_wf (scr p) ->
-  screen_wf (scr q) /\ vt q = fst (advance (vt p) bs).
+  screen_wf (scr q) /\ vt q = fst (advance (vt p) (delivered p bs)).
 Proof.
-  unfold process. intros E Hok H.
-  pose proof (advance_scalar_strong (vt p) bs) as S.
-  destruct (advance (vt p) bs) as [v acts]. cbn [fst snd] in *.
+  rewrite process_unfold. intros E Hok H.
+  pose proof (advance_scalar_strong (vt p) (delivered p bs)) as S.
+  destruct (advance (vt p) _) as [v acts]. cbn [fst snd] in *.
   binv E as p1 E1. destruct p1 as [s evs]. inv E. cbn [scr vt]. split; [|reflexivity].
-  eapply perform_all_wf; eauto.
+  eapply perform_all_wf; eauto. exact (parser_ok_scr _ Hok).
+Qed.
+
+(* the held-back bytes are bytes: they are empty or an incomplete utf-8 sequence *)
+Lemma parser_ok_pend_bytes p : parser_ok p -> bytes (pend p).
+Proof.
+  intros Hok. destruct (pend_inv_inc p (parser_ok_pend p Hok)) as [->|I]; [constructor|].
+  exact (inc_bytes _ I).
 Qed.
 
 Lemma process_wfb p bs q : process p bs = Ok q -> parser_ok p -> screen_wf (scr p) -> pbytes (vt p) -> bytes bs ->
   screen_wf (scr q) /\ pbytes (vt q).
 Proof.
   intros E Hok H Hp Hb. destruct (process_wf _ _ _ E Hok H) as [W V]. split; [exact W|].
-  rewrite V. now apply advance_pbytes.
+  rewrite V. apply advance_pbytes; [exact Hp|]. apply Forall_hd_part.
+  apply Forall_app. split; [exact (parser_ok_pend_bytes p Hok)|exact Hb].
 Qed.
 
 Definition op_bytes (o : api_op) : Prop :=
